@@ -264,6 +264,9 @@ func (d *Decoder) unmarshal(val reflect.Value, tagType byte) error {
 		if err != nil {
 			return err
 		}
+		if aryLen < 0 {
+			return errors.New("int array len less than 0")
+		}
 		vt := val.Type() // receiver must be a slice or array of int, int32, uint or uint32
 		if vt.Kind() == reflect.Interface {
 			vt = reflect.TypeOf([]int32{}) // pass
@@ -299,6 +302,9 @@ func (d *Decoder) unmarshal(val reflect.Value, tagType byte) error {
 		aryLen, err := d.readInt32()
 		if err != nil {
 			return err
+		}
+		if aryLen < 0 {
+			return errors.New("long array len less than 0")
 		}
 		vt := val.Type() // receiver must be a slice or array of int, int64, uint or uint64
 		if vt.Kind() == reflect.Interface {
